@@ -29,6 +29,7 @@ inductive Ev
   | quiet (t : Nat)
   | dumpDown (srv life : Nat)
   | dumpUp (srv life term role commit applied last leader snapIdx : Nat) (log : List (Nat × Nat × Nat × Nat)) (state : List Nat)
+  | leaderCh (srv life : Nat) (last : Option Bool) (isLeader : Bool)
   | shutdownHung (srv life : Nat)
 deriving Repr
 
@@ -108,6 +109,13 @@ def finalLogs (h : List Ev) : List (Nat × Nat × List (Nat × Nat × Nat × Nat
 
 def finalStates (h : List Ev) : List (Nat × Nat × List Nat) :=
   h.filterMap (fun e => match e with | .dumpUp s _ _ _ _ applied _ _ _ _ st => some (s, applied, st) | _ => none)
+
+/-- position in the history at which a call was invoked / answered (order of events, not clock
+    readings: under virtual time many events share one instant) -/
+def invokePos (h : List Ev) (cid : Nat) : Nat :=
+  (h.findIdx? (fun x => match x with | .invoke c => c == cid | _ => false)).getD 0
+def answerPos (h : List Ev) (cid : Nat) : Nat :=
+  (h.findIdx? (fun x => match x with | .call c _ _ _ _ _ _ _ _ _ => c == cid | _ => false)).getD h.length
 
 /-- every acknowledged Apply is the agreed entry at exactly the returned index, once, with the FSM's
     own response; every definitely-refused Apply is nowhere; acknowledged indexes respect real time -/
@@ -191,8 +199,15 @@ def converged (h : List Ev) : Option String :=
     index (a server still catching up is C12's business, not a loss) -/
 def ackedSurvive (h : List Ev) : Option String :=
   -- a user Restore is an epoch boundary: what was acknowledged before it is replaced by design
-  let epoch := (h.findSome? (fun e => match e with | .restore _ _ _ t1 true _ _ _ => some t1 | _ => none)).getD 0
-  let acked := ((calls h).filter (fun c => c.2.2.2.1 == 0 && c.2.2.2.2.2.2.2.1 == 0 && c.2.2.2.2.2.1 ≥ epoch)).map (fun c => (c.2.2.2.2.1, c.2.2.2.2.2.2.2.2.1))
+  -- (also when Restore reported an error after the leader's FSM had taken the state: the outcome is
+  -- then undetermined, like an Apply answered ErrLeadershipLost)
+  let riPos := (h.findIdx? (fun e => match e with | .restoreInvoke _ _ _ => true | _ => false)).getD 0
+  let epoch := (h.findIdx? (fun e => match e with
+    | .restore srv life _ _ ok _ _ data => ok || (h.zipIdx.any (fun (x, i) => i > riPos && (match x with
+        | .frestore s l d => s == srv && l == life && d == data
+        | _ => false)))
+    | _ => false)).getD 0
+  let acked := ((calls h).filter (fun c => c.2.2.2.1 == 0 && c.2.2.2.2.2.2.2.1 == 0 && (epoch == 0 || invokePos h c.1 > epoch))).map (fun c => (c.2.2.2.2.1, c.2.2.2.2.2.2.2.2.1))
   (finalStates h).findSome? (fun s =>
     match acked.find? (fun pi => pi.2 ≤ s.2.1 && !(s.2.2.contains pi.1)) with
     | some pi => some s!"acknowledged-command-{pi.1}-missing-from-fsm-of-{s.1}"
@@ -306,12 +321,12 @@ def restoreOK (h : List Ev) : Option String :=
         if !restoredLocally then some "leader-fsm-was-not-handed-the-supplied-snapshot"
         else
           let cs := (calls h).filter (fun c => c.2.2.2.1 == 0)
-          match cs.find? (fun c => c.2.2.2.2.2.2.2.1 == 0 && c.2.2.2.2.2.1 ≥ t1 && c.2.2.2.2.2.2.2.2.1 ≤ max metaIdx last) with
+          match cs.find? (fun c => c.2.2.2.2.2.2.2.1 == 0 && invokePos h c.1 > retPos && c.2.2.2.2.2.2.2.2.1 ≤ max metaIdx last) with
           | some c => some s!"write-{c.1}-after-the-restore-got-an-index-not-above-the-restored-one"
           | none =>
             let aborted := (cs.filter (fun c => c.2.2.2.2.2.2.2.1 == 6)).map (fun c => c.2.2.2.2.1)
-            let after := (cs.filter (fun c => c.2.2.2.2.2.2.2.1 == 0 && c.2.2.2.2.2.1 ≥ t1)).map (fun c => c.2.2.2.2.1)
-            let before := (cs.filter (fun c => c.2.2.2.2.2.2.1 < t0)).map (fun c => c.2.2.2.2.1)
+            let after := (cs.filter (fun c => c.2.2.2.2.2.2.2.1 == 0 && invokePos h c.1 > retPos)).map (fun c => c.2.2.2.2.1)
+            let before := (cs.filter (fun c => answerPos h c.1 < invPos)).map (fun c => c.2.2.2.2.1)
             (finalStates h).findSome? (fun st =>
               if st.2.2.take data.length ≠ data then some s!"final-state-of-{st.1}-does-not-start-with-the-restored-state"
               else if aborted.any (fun p => st.2.2.contains p) then some s!"aborted-write-left-a-trace-on-{st.1}"
@@ -403,6 +418,37 @@ def isolatedTermConstant (h : List Ev) : Option String :=
 def restartable (h : List Ev) : Option String :=
   h.findSome? (fun e => match e with
     | .dead srv life => some s!"server-{srv}-could-not-restart-from-its-durable-state-(life-{life})"
+    | _ => none)
+
+/-! ## C17 / C18 additions -/
+
+/-- C17: `Shutdown()` itself completes -/
+def shutdownCompletes (h : List Ev) : Option String :=
+  h.findSome? (fun e => match e with
+    | .shutdownHung srv life => some s!"shutdown-of-{srv}-(life-{life})-did-not-complete"
+    | _ => none)
+
+/-- C18: at rest, whatever LeaderCh holds is the most recent transition: if anything can be read
+    from it, the last value read says whether the server is leader now -/
+def leaderChLatest (h : List Ev) : Option String :=
+  h.findSome? (fun e => match e with
+    | .leaderCh srv _ (some v) isL => if v != isL then some s!"LeaderCh-of-{srv}-holds-{v}-while-leader={isL}" else none
+    | _ => none)
+
+/-- F16: a user Restore that did not complete (the leader was stopped while it ran) leaves its
+    snapshot in the leader's own snapshot store; at restart the leader's FSM is rebuilt from it although
+    the rest of the cluster never took that state.  Reported under its own name so that the known
+    finding covers exactly this history and nothing else. -/
+def failedRestoreResidue (h : List Ev) : Option String :=
+  h.findSome? (fun e => match e with
+    | .restore srv life _ _ false _ _ data =>
+        if data.isEmpty then none else
+        let again := h.any (fun x => match x with
+          | .frestore s l d => s == srv && l > life && d == data
+          | _ => false)
+        let elsewhere := (finalStates h).any (fun st => st.1 != srv && st.2.2.take data.length ≠ data)
+        let here := (finalStates h).any (fun st => st.1 == srv && st.2.2.take data.length == data)
+        if again && elsewhere && here then some s!"unfinished-restore-on-{srv}-came-back-at-its-restart-only-there" else none
     | _ => none)
 
 end CL
